@@ -368,8 +368,11 @@ def generate(rng, tier):
         if rng.random() < 0.12:
             t = ["b", rng.choice(sorted(SHIPPED))]      # a constrained type the library ships, called directly
             hostile_p = 0.9
-        while t[0] in ("leaf", "leaf2", "keyleaf", "b", "hook") and not (t[0] == "b" and t[1] in SHIPPED):
-            # (nor is a bare Rule whose own pre/post_validate override raises: that is the caller's code running at the top)
+        if rng.random() < 0.06:
+            # a constrained type with pre_validate / post_validate hooks of its own (what they raise for a value means the
+            # value does not parse, as for the hooks of the types the library ships)
+            t = ["hook"]
+        while t[0] in ("leaf", "leaf2", "keyleaf", "b") and not (t[0] == "b" and t[1] in SHIPPED):
             # a plain registered type handed to type_transform is not one of the statement's subjects
             # ("constrained and logical types, data classes and decorated functions")
             t = gen_type(rng, 0)
@@ -446,6 +449,11 @@ def generate(rng, tier):
         for _ in range(rng.choice([1, 1, 2])):
             site = rng.choice(hook_sites)
             hooks.setdefault(site, {})[str(rng.choice([1, 1, 2, 3, 5]))] = rng.choice(faults.EXC_NAMES)
+    if plan.get("type") == ["hook"] and rng.random() < 0.7:
+        # the type with hooks stands alone: its one value converts, one of its hooks fails at its first call
+        fl.clear()
+        tr.clear()
+        hooks = {rng.choice(["pre", "post", "post"]): {"1": rng.choice(faults.EXC_NAMES)}}
     if plan.get("cast_keys") and rng.random() < 0.7:
         hooks.setdefault("key_str", {})[str(rng.choice([1, 1, 2, 3]))] = rng.choice(faults.EXC_NAMES)
     if ('"$bomb"' in kernel.jdump(plan.get("extras", {})) or hostile_p) and rng.random() < 0.6:
